@@ -26,6 +26,7 @@ import (
 	"github.com/lestrrat-go/jwx/v2/jws"
 	v2 "github.com/nuts-foundation/nuts-node/vcr/pe/schema/v2"
 	"strings"
+	"time"
 
 	"github.com/PaesslerAG/jsonpath"
 	"github.com/dlclark/regexp2"
@@ -34,6 +35,9 @@ import (
 
 // ErrUnsupportedFilter is returned when a filter uses unsupported features.
 var ErrUnsupportedFilter = errors.New("unsupported filter")
+
+// patternMatchTimeout is the time a filter pattern may take to match a single value.
+const patternMatchTimeout = time.Second
 
 // ParsePresentationDefinition validates the given JSON and parses it into a PresentationDefinition.
 // It returns an error if the JSON is invalid or doesn't match the JSON schema for a PresentationDefinition.
@@ -537,6 +541,9 @@ func matchFilter(filter Filter, value interface{}) (bool, interface{}, error) {
 		if err != nil {
 			return false, nil, err
 		}
+		// regexp2 is a backtracking engine and matches without a time limit by default: a pattern with nested
+		// quantifiers (from a definition supplied by another party) takes time exponential in the length of the value.
+		re.MatchTimeout = patternMatchTimeout
 		match, err := re.FindStringMatch(value.(string))
 		if err != nil {
 			return false, nil, err
